@@ -53,13 +53,29 @@ class Valias(ViewMixin):
         return 'Valias.other'
 
 
+class Helpers:
+    """a plain mixin listed after ViewMixin: its public methods are public methods of the view"""
+
+    def helper_pub(self):
+        return 'Vmixin.helper_pub'
+
+    def _hp(self):
+        return 'Vmixin._hp'
+
+
+class Vmixin(ViewMixin, Helpers):
+    def own(self):
+        return 'Vmixin.own'
+
+
 FUNCS = {'f1': f1, 'f2': f2, '_hidden_fn': _hidden_fn}
-CLASSES = {'Vclean': Vclean, 'Valias': Valias}
+CLASSES = {'Vclean': Vclean, 'Valias': Valias, 'Vmixin': Vmixin}
 # members as dir(cls) lists them (sorted), declared here rather than introspected
 CLASS_MEMBERS = {
     'Vclean': [{'attr': '_hidden', 'target': '_hidden'}, {'attr': 'data', 'target': None}, {'attr': 'pub1', 'target': 'pub1'},
                {'attr': 'pub2', 'target': 'pub2'}],
     'Valias': [{'attr': '_priv', 'target': '_priv'}, {'attr': 'other', 'target': 'other'}, {'attr': 'pub', 'target': '_priv'}],
+    'Vmixin': [{'attr': '_hp', 'target': '_hp'}, {'attr': 'helper_pub', 'target': 'helper_pub'}, {'attr': 'own', 'target': 'own'}],
 }
 PREFIXES = [None, '', 'a', 'a.b']
 
@@ -84,7 +100,7 @@ def gen_ops(rng, depth, allow_alias):
         elif k == 3:
             e = {'op': 'view', 'r': e, 'cls': 'Vclean', 'prefix': rng.choice([None, '', 'v', 'v.w'])}
         elif k == 4:
-            cls = 'Valias' if allow_alias and rng.random() < 0.3 else 'Vclean'
+            cls = 'Valias' if allow_alias and rng.random() < 0.3 else rng.choice(['Vclean', 'Vmixin'])
             e = {'op': 'view', 'r': e, 'cls': cls, 'prefix': rng.choice([None, 'v'])}
         else:
             e = {'op': 'merge', 'r': e, 'other': gen_ops(rng, depth - 1, allow_alias)}
@@ -100,6 +116,7 @@ def all_small(maxops):
         lambda e: {'op': 'add_methods', 'r': e, 'items': [{'fn': 'f2'}]},
         lambda e: {'op': 'view', 'r': e, 'cls': 'Vclean', 'prefix': None},
         lambda e: {'op': 'view', 'r': e, 'cls': 'Vclean', 'prefix': 'v'},
+        lambda e: {'op': 'view', 'r': e, 'cls': 'Vmixin', 'prefix': None},
         lambda e: {'op': 'merge', 'r': e, 'other': {'op': 'add', 'r': new('b'), 'fn': 'f1', 'name': None}},
         lambda e: {'op': 'merge', 'r': e, 'other': {'op': 'merge', 'r': new('c'), 'other': {'op': 'add', 'r': new('d'), 'fn': 'f2', 'name': 'g'}}},
     ]
@@ -184,7 +201,7 @@ def finish(c):
     probes = set(names)
     for n in list(names)[:6]:
         probes |= set(list(edits(n))[:8])
-    probes |= {'_hidden', '_priv', 'Vclean._hidden', 'v._hidden', 'a._hidden', 'a.b._hidden', 'data', 'a.data', 'pub', 'v.pub',
+    probes |= {'helper_pub', '_hp', 'own', 'v._hp', 'a.helper_pub', '_hidden', '_priv', 'Vclean._hidden', 'v._hidden', 'a._hidden', 'a.b._hidden', 'data', 'a.data', 'pub', 'v.pub',
                '__methods__', '__init__', 'f1', 'a.f1', 'a.a.f1', 'nosuch', ''}
     c['probes'] = sorted(probes)
     return c
@@ -233,6 +250,9 @@ def spec_keys(e):
 # implementation
 # ------------------------------------------------------------------------------------------------
 
+SOURCES = []          # (expression, registry object) of every registry that was merged into another one
+
+
 def build(e, d):
     """evaluate the expression with real registries; ops marked via=dispatcher go through the dispatcher API"""
     op = e['op']
@@ -251,7 +271,9 @@ def build(e, d):
         elif op == 'view':
             d.view(CLASSES[e['cls']])
         elif op == 'merge':
-            d.add_methods(build(e['other'], None))
+            other = build(e['other'], None)
+            SOURCES.append((e['other'], other))
+            d.add_methods(other)
         return d.registry
     r = build(e['r'], d)
     if op == 'add':
@@ -261,7 +283,9 @@ def build(e, d):
     elif op == 'view':
         r.view(CLASSES[e['cls']], prefix=e['prefix'])
     elif op == 'merge':
-        r.merge(build(e['other'], None))
+        other = build(e['other'], None)
+        SOURCES.append((e['other'], other))
+        r.merge(other)
     return r
 
 
@@ -269,6 +293,7 @@ def run_impl(c):
     out = {}
     for half, is_async in (('sync', False), ('async', True)):
         d = (pjrpc.server.AsyncDispatcher if is_async else pjrpc.server.Dispatcher)()
+        del SOURCES[:]
         try:
             build(c['expr'], d)
         except Exception as ex:  # noqa
@@ -284,8 +309,19 @@ def run_impl(c):
                 probes.append({'name': name, 'target': doc['result'].replace('Vclean.', 'Vclean.').replace('Valias.', 'Valias.')})
             else:
                 probes.append({'name': name, 'target': None, 'code': doc['error']['code']})
-        out[half] = {'keys': keys, 'probes': probes}
+        # a registry merged into another one is only read: at the end it still holds exactly its own registrations
+        changed = [sorted(reg.keys()) for expr, reg in SOURCES if sorted(reg.keys()) != sorted(impl_keys_of(expr))]
+        out[half] = {'keys': keys, 'probes': probes, 'sources_unchanged': not changed, 'changed_sources': changed[:2]}
     return out
+
+
+def impl_keys_of(expr):
+    """the keys a registry built from `expr` holds by itself (evaluated on fresh objects)"""
+    keep = list(SOURCES)
+    try:
+        return list(build(expr, None).keys())
+    finally:
+        SOURCES[:] = keep
 
 
 def halves(out):
@@ -301,7 +337,7 @@ def relevant(prop, c):
 def _proj(o):
     if 'raised' in o:
         return {'raised': o['raised']}
-    return {'keys': sorted(o['keys']), 'probes': {p['name']: p['target'] for p in o['probes']}}
+    return {'keys': sorted(o['keys']), 'probes': {p['name']: p['target'] for p in o['probes']}, 'sources_unchanged': o.get('sources_unchanged', True)}
 
 
 def project(prop, c, out):
@@ -350,6 +386,11 @@ def oracle(prop, c, out):
             key = 'view-alias:private'
         elif uses_method_obj_in_prefixed(c['expr']):
             key = 'add_methods:method-object-prefix'
+        if not o.get('sources_unchanged', True):
+            f.append(Finding(prop, 'merged-registry-changed', f'[{half}] a registry that was merged into another one no longer holds exactly its own '
+                                                               f'registrations (later registrations on the receiving side leaked into it)', c,
+                             {'changed': o.get('changed_sources')}))
+            continue
         if sorted(o['keys']) != sorted(want):
             f.append(Finding(prop, key or 'keyset', f'[{half}] the set of callable names differs from the registrations', c,
                              {'keys': sorted(o['keys'])}, sorted(want)))
